@@ -21,7 +21,7 @@ import (
 const (
 	c47nAddr = 3
 	c47nAidx = 3
-	c47nKeys = 6
+	c47nKeys = 7
 )
 
 var c47addrs = func() (a [c47nAddr]basics.Address) {
@@ -40,8 +40,9 @@ var c47addrs = func() (a [c47nAddr]basics.Address) {
 var c47aidx = [c47nAidx]basics.CreatableIndex{1, 2, 3}
 var c47ctype = [c47nAidx]basics.CreatableType{basics.AssetCreatable, basics.AppCreatable, basics.AssetCreatable}
 
-// the prefix-sharing key set of the property (C10 shapes)
-var c47keys = [c47nKeys]string{"a", "a\x00", "ab", "b", "\xff", "\xff\xff"}
+// the prefix-sharing key set of the property (C10 shapes) plus one 0xff-suffixed key under a
+// regular prefix
+var c47keys = [c47nKeys]string{"a", "a\x00", "a\xff", "ab", "b", "\xff", "\xff\xff"}
 var c47vals = [3][]byte{[]byte("1"), {}, []byte("22")}
 
 type c47kind int8
